@@ -88,6 +88,7 @@ class Engine:
     def __init__(self, prog, intrinsics=None, follow=None):
         self.prog = prog
         self.intrinsics = intrinsics or (lambda eng, t, args: None)
+        self.trunc_depth = 4
         self.follow = follow or (lambda fn: True)
         self.memo = {}
         self.in_progress = set()
@@ -367,7 +368,7 @@ class Engine:
                 t = blk["t"]
                 k = t["k"]
                 if k == "return":
-                    results.add(truncate(env.get(0, Tup(()))))
+                    results.add(truncate(env.get(0, Tup(())), self.trunc_depth))
                     break
                 if k == "goto":
                     b = t["t"]
@@ -543,7 +544,7 @@ class Engine:
         return [TOP]
 
     def summary(self, callee, args):
-        args = tuple(truncate(a) for a in args)
+        args = tuple(truncate(a, self.trunc_depth) for a in args)
         key = (callee.id, args)
         if key in self.memo:
             return self.memo[key]
